@@ -192,9 +192,7 @@ fn main() -> miette::Result<()> {
                 bytes.extend(stmt.emit()?.to_be_bytes());
             }
 
-            let mut file = File::create(&out_file_name).into_diagnostic()?;
-            file.write_all(&bytes).into_diagnostic()?;
-            file.flush().into_diagnostic()?;
+            write_object_file(&out_file_name, &bytes).into_diagnostic()?;
 
             message(Green, "Finished", "emit binary");
             file_message(Green, "Saved", &out_file_name);
@@ -283,6 +281,40 @@ enum MsgColor {
     Green,
     Cyan,
     Red,
+}
+
+/// Write `bytes` to `dest` so that a write which fails half-way (full disk, quota, size limit) leaves
+/// `dest` as it was: an absent or regular destination is written next to itself and then moved into
+/// place. Anything else (device, pipe, symbolic link, directory) cannot be replaced that way and is
+/// written directly, as is a destination whose directory does not accept a new file.
+fn write_object_file(dest: &Path, bytes: &[u8]) -> std::io::Result<()> {
+    let write_to = |path: &Path| -> std::io::Result<()> {
+        let mut file = File::create(path)?;
+        file.write_all(bytes)?;
+        file.flush()
+    };
+
+    let replaceable = match fs::symlink_metadata(dest) {
+        Ok(metadata) => metadata.file_type().is_file(),
+        Err(err) => err.kind() == std::io::ErrorKind::NotFound,
+    };
+    let Some(file_name) = dest.file_name().filter(|_| replaceable) else {
+        return write_to(dest);
+    };
+
+    let mut temp_name = std::ffi::OsString::from(".");
+    temp_name.push(file_name);
+    temp_name.push(format!(".{}.tmp", std::process::id()));
+    let temp = dest.with_file_name(temp_name);
+
+    if File::create(&temp).is_err() {
+        return write_to(dest);
+    }
+    let result = write_to(&temp).and_then(|()| fs::rename(&temp, dest));
+    if result.is_err() {
+        let _ = fs::remove_file(&temp);
+    }
+    result
 }
 
 fn file_message(color: MsgColor, left: &str, right: &PathBuf) {
